@@ -150,3 +150,33 @@ def one_preemption_schedules(nthreads, max_steps=40, every=1):
                 for order in itertools.permutations(rest):
                     out.append([[a, j], [b, BIG], [a, BIG]] + [[t, BIG] for t in order])
     return out
+
+
+# ---- uconc: the consumer-side agent (reads and unblock() calls) under the scheduler --------------------
+# case: kind 'uconc'; as 'conc' but 'agent' = ['u' | limit, ..] replaces 'limits'
+
+def uconc_line(c):
+    def ops(l):
+        return ','.join(op_token(o) for o in l)
+    parts = ['uconc', str(c['cap']), str(c['p0']), str(c['hc0']), str(c['c0']), 'pre=' + ops(c['pre']),
+             'cons=' + ','.join(str(x) for x in c['agent'])]
+    for p in c['progs']:
+        parts.append('prod=' + ','.join('w:%d:%d:%d' % (w[0], w[1], w[2]) for w in p))
+    parts.append('sched=' + ','.join('%d*%d' % (t, n) for t, n in c['sched']))
+    parts.append('stops=' + ','.join('-' if s < 0 else str(s) for s in c['stops']))
+    parts.append('post=' + ops(c['post']))
+    return ' '.join(parts)
+
+
+def agent_coq(c):
+    return '[' + '; '.join('CoUnblock' if x == 'u' else 'CoRead %s' % z(x) for x in c['agent']) + ']'
+
+
+def stops_coq(c):
+    return '[' + '; '.join(z(s) for s in c['stops']) + ']'
+
+
+def uconc_model(c, mode):
+    return 'run_uconc %s %s %s %s %s (unrle %s) %s %s' % (
+        mode_c(mode), seq_init(c), ops_coq(c['pre']), agent_coq(c), progs_coq(c),
+        '[' + '; '.join('(%d, %d)' % (t, n) for t, n in c['sched']) + ']', stops_coq(c), ops_coq(c['post']))
